@@ -530,12 +530,21 @@ OperandOk(u) == HasTab(u) \/ (u.k = "P" /\ (NoEsc(u.t) \/ InputStrict(u.t)))
 OperandTab(u) == IF HasTab(u) THEN <<u.t, TabOf(u.f)>>
                  ELSE IF NoEsc(u.t) THEN <<u.t, EmptyTab>> ELSE CPSetAnsiStr(u.t)
 
-\* AnsiString.join: copy (or parse) the first operand, then += each of the others
-RECURSIVE JoinFold(_, _, _)
-JoinFold(ops, k, acc) ==
-  IF k > Len(ops) THEN acc
-  ELSE LET o == OperandTab(ops[k]) IN JoinFold(ops, k + 1, CPIAdd(acc[1], acc[2], o[1], o[2]))
-CPJoin(ops) == IF ops = << >> THEN <<(<< >>), EmptyTab>> ELSE JoinFold(ops, 2, OperandTab(ops[1]))
+\* AnsiString.join: copy (or parse) the first operand, then += each of the others (operands as <<text, table>> pairs)
+RECURSIVE JoinFoldT(_, _, _)
+JoinFoldT(ps, k, acc) ==
+  IF k > Len(ps) THEN acc ELSE JoinFoldT(ps, k + 1, CPIAdd(acc[1], acc[2], ps[k][1], ps[k][2]))
+CPJoinT(ps) == IF ps = << >> THEN <<(<< >>), EmptyTab>> ELSE JoinFoldT(ps, 2, ps[1])
+CPJoin(ops) == CPJoinT(StrictSeq([k \in DOMAIN ops |-> OperandTab(ops[k])]))
+
+\* _strip(chars, inplace, do_lstrip, do_rstrip): count from the left; from the right only when something is left over
+\* (a negative end index, None when nothing is stripped there); then clip(lcount, rcount) = self[lcount:rcount]
+CPStrip(t, f, chars, doL, doR) ==
+  LET n == Len(t)
+      lcount == IF doL THEN LCount(t, chars, 0) ELSE 0
+      rc == IF doR /\ lcount < n THEN RKeep(t, chars, n) - n ELSE 0
+      rOpt == IF rc = 0 THEN << >> ELSE <<rc>>
+  IN CPGetItem(t, f, SliceIdx(<<lcount>>, n, 0), SliceIdx(rOpt, n, n))
 
 \* _split / splitlines: each piece of str.split is located again with str.find from a running index (plus the
 \* separator length when there is a separator) and cut with __getitem__
@@ -606,8 +615,12 @@ DriftClauses(e, pre, post) ==
                           ELSE (IF EndsWith(v.t, e.a.s) /\ e.a.s # << >> THEN << <<"reg", e.r, 0, n - Len(e.a.s)>> >> ELSE << <<"reg", e.r, 0, n>> >>)
              g == CPGetItem(v.t, f, segs[1][3], segs[1][4])
              whole == segs[1][3] = 0 /\ segs[1][4] = n
-         IN Cl("drift.strip", f # EmptyTab /\ ~whole, ~whole => (w.t = g[1] /\ SameTab(TabOf(w.f), g[2])))
-    [] e.op = "replace" /\ HasResult(e) /\ e.a.old # << >> ->
+             g2 == IF e.op = "strip"
+                   THEN CPStrip(v.t, f, IF e.a.chars = << >> THEN DefaultStripSet ELSE e.a.chars[1],
+                                e.a.m \in {"strip", "lstrip"}, e.a.m \in {"strip", "rstrip"})
+                   ELSE g
+         IN Cl("drift.strip", f # EmptyTab /\ ~whole, ~whole => (w.t = g[1] /\ SameTab(TabOf(w.f), g[2]) /\ g2 = g))
+    [] e.op = "replace" /\ HasResult(e) /\ e.a.old # << >> /\ (pre[e.a.new].k # "P" \/ NoEsc(pre[e.a.new].t)) ->
          LET w == ResultOf(e, post) u == pre[e.a.new]
              g == CPReplace(v.t, f, e.a.old, u.k, u.t, IF HasTab(u) THEN TabOf(u.f) ELSE EmptyTab, e.a.count)
              matched == Find(v.t, e.a.old, 0, n) >= 0 /\ e.a.count # 0
